@@ -72,9 +72,9 @@ func init() {
 			if c.Quick() {
 				runSched(c, "C01", []string{"S1-swap-swap", "S2-swap-melt", "S3-melt-melt", "S5-swap-swapvariant", "S6-pendingmelt-poll-swap", "S8p-swap-melt-pending", "S8f-swap-melt-failed", "S10-melt-poll-swap", "S11-failedmelt-poll-remelt-swap", "S12f-meltfails-remelt-swap"}, 2)
 			} else {
-				runSched(c, "C01", []string{"S1-swap-swap", "S2-swap-melt", "S3-melt-melt", "S4-swap-melt-check", "S5-swap-swapvariant", "S6-pendingmelt-poll-swap", "S6f-pendingmelt-failed-poll-swap", "S8p-swap-melt-pending", "S8f-swap-melt-failed", "S9-two-input-overlap", "S10-melt-poll-swap"}, 3)
-				runSched(c, "C01", []string{"S11-failedmelt-poll-remelt-swap", "S12f-meltfails-remelt-swap", "S12n-meltnotfound-remelt-swap"}, 2)
-				runSched(c, "C01", []string{"S7-swap-swap-melt"}, 2)
+				runSchedAll(c, "C01", []string{"S1-swap-swap", "S2-swap-melt", "S3-melt-melt", "S4-swap-melt-check", "S5-swap-swapvariant", "S6-pendingmelt-poll-swap", "S6f-pendingmelt-failed-poll-swap", "S8p-swap-melt-pending", "S8f-swap-melt-failed", "S9-two-input-overlap", "S10-melt-poll-swap"}, 3)
+				runSchedAll(c, "C01", []string{"S11-failedmelt-poll-remelt-swap", "S12f-meltfails-remelt-swap", "S12n-meltnotfound-remelt-swap"}, 2)
+				runSchedAll(c, "C01", []string{"S7-swap-swap-melt"}, 2)
 			}
 		},
 		Worker: dispatchWorker(bfs.Worker(c01All)),
